@@ -58,6 +58,8 @@ class Rec:
         self.reasons = []
         self.delivered = 0
         self.delivered_after_closed = 0
+        self.written_at_closed = None
+        self.closing_times = []   # virtual time of each CLOSING not yet followed by its CLOSED
         self.ep = None
 
 
@@ -97,6 +99,13 @@ class Sim:
         r = self.rec(ev.connection)
         r.reported.append(ev.state.name)
         r.reasons.append(ev.close_reason.name)
+        if ev.state.name == 'CLOSING':
+            r.closing_times.append(self.loop.time())
+        elif ev.state.name == 'CLOSED' and r.closing_times:
+            r.closing_times.pop(0)
+        if ev.state.name == 'CLOSED' and r.written_at_closed is None:
+            ep = getattr(self, 'ep', None)
+            r.written_at_closed = len(ep.written) if ep is not None and getattr(ev.connection, '_writer', None) is ep.writer else 0
 
     def _on_msg(self, ev):
         r = self.rec(ev.connection)
@@ -191,6 +200,8 @@ class ConnSim(Sim):
         self.snaps = []
         self.known_ticket = 777
         self.pierce_future = None
+        self.hung_drain = False
+        self.ticks = 0
         if kind == 'in':
             self.loop.run_coro(self.network.connect_listening_ports())
         # a listening connection reports its own state changes: drop them
@@ -210,7 +221,33 @@ class ConnSim(Sim):
                     self.conn = self.network.peer_connections[0]
         return self.conn
 
+    # -- implementation-side gates (select inputs only; outcomes are never told to the model)
+    def _attempt_pending(self):
+        return self.attempt is not None and not self.attempt.done()
+
+    def _reader_alive(self):
+        c = self.cur()
+        t = getattr(c, '_reader_task', None) if c is not None else None
+        return t is not None and not t.done()
+
+    def _closing_now(self):
+        """a disconnect() call is between its CLOSING and its CLOSED"""
+        c = self.cur()
+        w = getattr(c, '_writer', None) if c is not None else None
+        return (c is not None and c.state.name == 'CLOSING') or (w is not None and w.is_closing())
+
+    def _quiet_for_timeout(self):
+        """no other timer than the one the action is about may fire"""
+        return not self._closing_now() and not self.connect_futs and not self.hung_drain
+
     def act(self, a):
+        """Executes one action; returns the model events it stands for ([] = not applicable, skipped)."""
+        evs = self._act(a)
+        self.settle()
+        self.snaps.append(self.snapshot())
+        return evs
+
+    def _act(self, a):
         from aioslsk.network.connection import CloseReason
         from aioslsk.protocol.messages import (PeerInit, PeerPierceFirewall, ConnectToPeer, PeerSharesRequest,
                                                GetUserStatus, DistributedBranchLevel)
@@ -219,6 +256,10 @@ class ConnSim(Sim):
         k = a[0]
         n = self.network
         if k == 'create':
+            if self._attempt_pending() or (self.kind != 'server' and self.attempt is not None):
+                return []
+            if self.kind == 'server' and (n.server_connection.state.name not in ('UNINITIALIZED', 'CLOSED')):
+                return []
             if self.kind == 'out':
                 self.attempt = self.spawn(n._make_direct_connection(5, 'peer', self.typ, '10.0.0.9', 40000, self.obf))
             elif self.kind == 'resp':
@@ -226,72 +267,132 @@ class ConnSim(Sim):
                                              ticket=9, privileged=False, obfuscated_port_amount=1 if self.obf else 0,
                                              obfuscated_port=40001 if self.obf else 0)
                 self.attempt = self.spawn(n._handle_connect_to_peer(msg))
-            else:
+            elif self.kind == 'server':
                 self.attempt = self.spawn(n.connect_server())
-        elif k == 'conn_ok':
+            else:
+                return []
+            return ['Create', 'ConnectStart']
+        if k == 'conn_ok':
             mode = a[1]
-            if self.connect_futs:
-                self.ep = self.endpoint()
-                if mode == 'fail':
-                    self.ep.drain_error = ConnectionResetError('reset')
-                elif mode == 'hang':
-                    self.ep.drain_hang = True
-                self.resolve_connect(self.ep)
-                self.settle(3)
-                # later sends on this endpoint are configured per send
-                self.ep.drain_error = None
-                if mode != 'hang':
-                    self.ep.drain_hang = False
-        elif k == 'conn_fail':
-            if self.connect_futs:
-                self.resolve_connect(ConnectionRefusedError('refused'))
-        elif k == 'conn_timeout':
-            self.advance(10.0)
-        elif k == 'send_timeout':
-            self.advance(10.0)
-        elif k == 'cancel':
-            if self.attempt is not None and not self.attempt.done():
-                self.attempt.cancel()
+            if not self.connect_futs:
+                return []
+            self.ep = self.endpoint()
+            if mode == 'fail':
+                self.ep.drain_error = ConnectionResetError('reset')
+            elif mode == 'hang':
+                self.ep.drain_hang = True
+            self.resolve_connect(self.ep)
+            self.settle(3)
+            self.ep.drain_error = None
+            self.ep.drain_hang = False
+            if self.kind == 'server':
+                return ['ConnectOk']
+            if mode == 'hang':
+                self.hung_drain = True
+                return ['ConnectOk']
+            return ['ConnectOk', 'SendInit SOk' if mode == 'ok' else 'SendInit SFail']
+        if k == 'conn_fail':
+            if not self.connect_futs:
+                return []
+            self.resolve_connect(ConnectionRefusedError('refused'))
+            return ['ConnectFail']
+        if k == 'conn_timeout':
+            if not self.connect_futs or self._closing_now() or self.hung_drain or self.ticks >= 4:
+                return []
+            self.ticks += 1
             self.connect_futs.clear()
-        elif k == 'start_reader':
+            self.advance(30.0 if self.kind == 'server' else 10.0)
+            return ['ConnectTimeout']
+        if k == 'send_timeout':
+            if not self.hung_drain or self._closing_now() or self.connect_futs or self.ticks >= 4:
+                return []
+            self.ticks += 1
+            self.hung_drain = False
+            self.advance(10.0)
+            return ['SendInit STimeout']
+        if k == 'cancel':
+            if not self._attempt_pending() or self.kind == 'in':
+                return []
+            self.attempt.cancel()
+            self.connect_futs.clear()
+            self.hung_drain = False
+            return ['Cancel']
+        if k == 'start_reader':
+            if self.kind != 'server':
+                return []
             c = self.cur()
-            c.start_reader_task()
-        elif k == 'accept':
+            if self._reader_alive() or c.state.name != 'CONNECTED':
+                return []
+            self.loop.call_soon(c.start_reader_task)
+            return ['StartReader']
+        if k == 'accept':
+            if self.kind != 'in' or self.attempt is not None:
+                return []
             port = 60001 if self.obf else 60000
             self.ep = self.net.incoming(port)
             self.ep.wait_closed_hang = self.wc_hang
             self.attempt = self.net.accept_tasks[-1]
             self.tasks.append(self.attempt)
-        elif k == 'init':
+            return ['Accept']
+        if k == 'init':
             r = a[1]
             ep = self.ep
+            if self.kind != 'in' or not self._attempt_pending() or ep.client_closed or ep.remote_closed:
+                return []
             if r.startswith('peerinit_'):
                 ep.feed(frame(PeerInit.Request('peer', r[-1], 3).serialize(), self.obf))
-            elif r == 'pierce_known':
+                return [f'InitRead (IPeerInit T{r[-1]})']
+            if r == 'pierce_known':
                 fut = PeerFuture(self.known_ticket, 'peer', self.typ)
                 fut.add_done_callback(partial(n._remove_connection_future, self.known_ticket))
                 n._expected_connection_futures[self.known_ticket] = fut
                 self.pierce_future = fut
                 ep.feed(frame(PeerPierceFirewall.Request(self.known_ticket).serialize(), self.obf))
-            elif r == 'pierce_unknown':
+                return ['InitRead IPierceKnown']
+            if r == 'pierce_unknown':
                 ep.feed(frame(PeerPierceFirewall.Request(4242).serialize(), self.obf))
-            elif r == 'other':
-                # a well-formed frame whose id is not an init message: deserialises? no: unknown id -> undecodable;
-                # "unexpected init message" is not reachable through deserialize_request (only 2 ids known), so
-                # the branch is exercised by handing the handler a decoded non-init message (see c10.py)
+                return ['InitRead IPierceUnknown']
+            if r == 'other':
+                # "unexpected init message": the last branch of on_peer_accepted.  The init parser knows only
+                # PeerInit/PeerPierceFirewall, so the branch is reached with a decoded foreign message object.
+                c = self.cur()
+                orig = c.deserialize_message
+                c.deserialize_message = lambda data: PeerSharesRequest.Request()
                 ep.feed(frame(struct.pack('<IB', 1, 99), self.obf))
-            elif r == 'undecodable':
-                ep.feed(frame(struct.pack('<IBI', 5, 1, 1000) , self.obf))
-            else:
-                self._feed_fault(r)
-        elif k == 'disc':
+                self.settle(5)
+                c.deserialize_message = orig
+                return ['InitRead IOther']
+            if r == 'undecodable':
+                ep.feed(frame(struct.pack('<IBI', 5, 1, 1000), self.obf))
+                return ['InitRead IUndecodable']
+            if r == 'timeout':
+                if not self._quiet_for_timeout():
+                    return []
+                self._advance_to_read_deadline()
+                return ['InitRead ITimeout']
+            self._feed_fault(r)
+            return ['InitRead ' + {'eof': 'IEof', 'partial': 'IPartial', 'err': 'IReadErr'}[r]]
+        if k == 'disc':
             c = self.cur()
-            if c is not None:
-                self.spawn(c.disconnect(CloseReason[a[1]]))
-        elif k == 'close_done':
+            if c is None:
+                return []
+            self.spawn(c.disconnect(CloseReason[a[1]]))
+            rn = {'UNKNOWN': 'RUnknown', 'CONNECT_FAILED': 'RConnectFailed', 'REQUESTED': 'RRequested', 'READ_ERROR': 'RReadError',
+                  'WRITE_ERROR': 'RWriteError', 'TIMEOUT': 'RTimeoutR', 'EOF': 'REof'}[a[1]]
+            return [f'Disconnect {rn}']
+        if k == 'close_done':
+            if not self._closing_now() or not self.wc_hang or self.ticks >= 4:
+                return []
+            self.ticks += 1
+            pend = list(self.rec(self.cur()).closing_times)
             self.advance(5.0)
-        elif k == 'feed':
+            # timer inputs: every wait_closed() started at least DISCONNECT_TIMEOUT ago gives up
+            return ['CloseDone'] * max(1, sum(1 for t in pend if t + 5.0 <= self.loop.time()))
+        if k == 'feed':
             x = a[1]
+            ep = self.ep
+            if ep is None or not self._reader_alive() or ep.client_closed or ep.remote_closed:
+                return []
             if x == 'msg':
                 if self.kind == 'server':
                     m = GetUserStatus.Response('u', 1, False).serialize()
@@ -299,29 +400,49 @@ class ConnSim(Sim):
                     m = DistributedBranchLevel.Request(1).serialize()
                 else:
                     m = PeerSharesRequest.Request().serialize()
-                self.ep and self.ep.feed(frame(m, self._cobf()))
-            elif x == 'undecodable':
-                self.ep and self.ep.feed(frame(struct.pack('<II', 4, 0x7fffff01), self._cobf()))
-            else:
-                self._feed_fault(x)
-        elif k == 'send':
+                ep.feed(frame(m, self._cobf()))
+                return ['ReaderGets XMsg']
+            if x == 'undecodable':
+                ep.feed(frame(struct.pack('<II', 4, 0x7fffff01), self._cobf()))
+                return ['ReaderGets XUndecodable']
+            if x == 'timeout':
+                if not self._quiet_for_timeout():
+                    return []
+                self._advance_to_read_deadline()
+                return ['ReaderGets XTimeout']
+            self._feed_fault(x)
+            return ['ReaderGets ' + {'eof': 'XEof', 'partial': 'XPartial', 'err': 'XErr'}[x]]
+        if k == 'send':
             c = self.cur()
             mode = a[1]
-            if c is not None:
-                ep = self.ep
-                if ep is not None:
-                    ep.drain_error = ConnectionResetError('reset') if mode == 'fail' else None
-                    ep.drain_hang = (mode == 'hang')
-                before = len(ep.written) if ep is not None else 0
-                t = self.spawn(c.send_message(b'\x04\x00\x00\x00\x01\x00\x00\x00'))
-                self.settle(2)
-                self.sends.append((t, before, ep))
-                if ep is not None and mode != 'hang':
-                    ep.drain_error = None
-        else:
-            raise ValueError(a)
-        self.settle()
-        self.snaps.append(self.snapshot())
+            if c is None:
+                return []
+            ep = self.ep
+            if mode == 'hang' and (not self._quiet_for_timeout() or self.ticks >= 4):
+                return []
+            if ep is not None:
+                ep.drain_error = ConnectionResetError('reset') if mode == 'fail' else None
+                ep.drain_hang = (mode == 'hang')
+            before = len(ep.written) if ep is not None else 0
+            t = self.spawn(c.send_message(b'\x04\x00\x00\x00\x01\x00\x00\x00'))
+            self.settle(2)
+            self.sends.append((t, before, ep))
+            if ep is not None:
+                ep.drain_error = None
+                ep.drain_hang = False
+            if mode == 'hang':
+                self.ticks += 1
+                self.advance(10.0)
+            return ['Send ' + {'ok': 'SOk', 'fail': 'SFail', 'hang': 'STimeout'}[mode]]
+        raise ValueError(a)
+
+    def _advance_to_read_deadline(self):
+        """let exactly the read timeout expire (every send shifts it by read_timeout), nothing later"""
+        c = self.cur()
+        to = getattr(c, '_read_timeout_object', None)
+        dl = getattr(to, 'deadline', None)
+        now = self.loop.time()
+        self.advance(max(dl - now, 0.0) if dl is not None else (60.0 if self.kind != 'server' else 600.0))
 
     def _ctype(self):
         c = self.cur()
@@ -343,8 +464,6 @@ class ConnSim(Sim):
         elif x == 'err':
             if not ep.client_closed:
                 ep.set_exception(ConnectionResetError('reset by peer'))
-        elif x == 'timeout':
-            self.advance(60.0 if self.kind != 'server' else 600.0)
         else:
             raise ValueError(x)
 
@@ -375,6 +494,9 @@ class ConnSim(Sim):
             'attempt': task_outcome(self.attempt),
             'sends': sends,
             'written': len(self.ep.written) if self.ep is not None else 0,
+            'written_at_closed': r.written_at_closed if r else None,
+            'close_pending': self._closing_now(),
+            'in_open_connection': bool(self.connect_futs) and self._attempt_pending(),
             'nconns_seen': len(self.order),
             'registry_size': len(self.network.peer_connections),
             'unhandled': len(self.loop.unhandled),
@@ -383,11 +505,13 @@ class ConnSim(Sim):
 
 
 def run_scenario(sc):
-    """sc = {'kind','obf','typ','wch','acts'} -> result dict (implementation side)."""
+    """sc = {'kind','obf','typ','wch','acts'} -> result dict (implementation side) incl. 'events': per action
+    the model events it stands for."""
     sim = ConnSim(sc['kind'], obf=sc.get('obf', False), typ=sc.get('typ', 'P'), wc_hang=sc.get('wch', False))
     try:
-        for a in sc['acts']:
-            sim.act(a)
-        return sim.result()
+        evs = [sim.act(a) for a in sc['acts']]
+        r = sim.result()
+        r['events'] = evs
+        return r
     finally:
         sim.close()
